@@ -2,6 +2,7 @@ package rules
 
 import (
 	"fmt"
+	"go/ast"
 	"go/token"
 	"go/types"
 	"strings"
@@ -99,8 +100,16 @@ func runC19(p *engine.Prog, r *engine.Report) {
 		}
 		// R19.1
 		var probs []string
+		// an exit taken from inside an iteration is dominated by the loop body's entry (it is not part
+		// of the natural loop, which only contains blocks that reach the back edge)
+		var bodyEntry *ssa.BasicBlock
+		for _, sc := range loop.header.Succs {
+			if loop.blocks[sc.Index] {
+				bodyEntry = sc
+			}
+		}
 		for _, b := range fn.Blocks {
-			if !loop.blocks[b.Index] {
+			if b == fn.Recover || bodyEntry == nil || !(bodyEntry == b || bodyEntry.Dominates(b)) {
 				continue
 			}
 			switch last := b.Instrs[len(b.Instrs)-1].(type) {
@@ -275,4 +284,46 @@ func runC19(p *engine.Prog, r *engine.Report) {
 	}
 }
 
-func controlsC19(p *engine.Prog) []Control { return nil }
+func controlsC19(p *engine.Prog) []Control {
+	// a failing replica ends the whole cycle: 'continue' in an error branch of the replica loop becomes 'return err' → R19.1
+	c1 := astControl(p, pkgCoord, "replica error returns instead of continuing", "C19/R19.1", func(n ast.Node, src []byte, off func(token.Pos) int) (int, int, string, bool) {
+		ifs, ok := n.(*ast.IfStmt)
+		if !ok || ifs.Init == nil {
+			return 0, 0, "", false
+		}
+		// if err := X.ChangeScale(...); err != nil { ...; continue }
+		as, ok := ifs.Init.(*ast.AssignStmt)
+		if !ok || len(as.Rhs) != 1 {
+			return 0, 0, "", false
+		}
+		call, ok := as.Rhs[0].(*ast.CallExpr)
+		if !ok {
+			return 0, 0, "", false
+		}
+		sel, ok := call.Fun.(*ast.SelectorExpr)
+		if !ok || sel.Sel.Name != "ChangeScale" {
+			return 0, 0, "", false
+		}
+		for _, st := range ifs.Body.List {
+			if br, ok := st.(*ast.BranchStmt); ok && br.Tok == token.CONTINUE {
+				return off(br.Pos()), off(br.End()), "return err", true
+			}
+		}
+		return 0, 0, "", false
+	})
+	// planning reads the merged view of all replicas → R19.3
+	c2 := astControl(p, pkgCoord, "planning consults the merged view of all replicas", "C19/R19.3", func(n ast.Node, src []byte, off func(token.Pos) int) (int, int, string, bool) {
+		call, ok := n.(*ast.CallExpr)
+		if !ok {
+			return 0, 0, "", false
+		}
+		sel, ok := call.Fun.(*ast.SelectorExpr)
+		if !ok || sel.Sel.Name != "getExploreResult" || len(call.Args) != 1 {
+			return 0, 0, "", false
+		}
+		recv := string(src[off(sel.X.Pos()):off(sel.X.End())])
+		arg := string(src[off(call.Args[0].Pos()):off(call.Args[0].End())])
+		return off(call.Pos()), off(call.End()), recv + ".lastGlobalScrapeStatus[" + arg + "]", true
+	})
+	return []Control{c1, c2}
+}
